@@ -9,7 +9,7 @@ as summaries and checks the preconditions at every call site.
 Typestates: zero < bits8 < bits32 < canon [0,p) < small [0,0xFFFFFFFF00000000] < u64.  's:' = shifted by 2^63.
 """
 from .poly import FV, Poly, P, ts_le, ts_of_const, C
-from .interp import Ptr, Incomplete, Undef
+from .interp import Ptr, Incomplete, Undef, Region
 
 V4 = 'long long vector[4]'
 V8 = 'long long vector[8]'
@@ -323,6 +323,72 @@ def wrapper_summaries(mod, ctx, scalar=True, only=None):
             put(c['sig'], make_incdec_summary(c, ctx))
         put('Goldilocks::toU64(unsigned long&, %s const&)' % E, toU64_summary(ctx))
         put('Goldilocks::inv(%s&, %s const&)' % (E, E), inv_summary(ctx))
+        # derived scalar routines and predicates whose body does raw integer arithmetic on the representation (a hand-written
+        # `p - x`, a direct word comparison): wrapper mode cannot follow such a body, so callers use the routine's contract;
+        # the routine itself is decided on exact integers by C01 (derived API) / C15 (predicates).  Routines written in terms
+        # of the field primitives (the pinned tree) are interpreted as before.
+        for sig, h in derived_summaries(ctx):
+            try:
+                n_ = mod.find(sig)
+            except KeyError:
+                continue
+            if raw_body(mod, n_):
+                out[n_] = h
     return out, missing
+
+
+RAW_OPS = ('add', 'sub', 'mul', 'udiv', 'urem', 'sdiv', 'srem', 'and', 'or', 'xor', 'shl', 'lshr', 'ashr', 'icmp', 'select')
+
+
+def raw_body(mod, name):
+    """does the routine compute on 64-bit integers itself (rather than only calling other routines)?"""
+    try:
+        fn = mod.fn(name)
+    except Exception:
+        return False
+    for b in fn.order:
+        for ins in fn.blocks[b]:
+            if ins.op in RAW_OPS:
+                tys = [ins.ty] + ([ins.x] if isinstance(ins.x, tuple) and ins.x and ins.x[0] == 'i' else [])
+                if any(isinstance(t, tuple) and t and t[0] == 'i' and t[1] >= 64 for t in tys) or ins.op == 'icmp':
+                    return True
+    return False
+
+
+def derived_summaries(ctx):
+    canon = toU64_summary(ctx)
+
+    def cval(I, v):
+        # the canonical integer of a field value, as toU64 would deliver it
+        r_ = Region('tmp-canon', 'alloca', extent=8)
+        I.mem[(r_, 0)] = (v, 8)
+        return canon(I, [Ptr(r_, 0)], None)
+
+    def unary(op):
+        def f(I, args, ins):
+            src = args[-1]
+            x = to_fv(I.load_cell(src, 8))
+            nf = (-x.nf).modp() if op == 'neg' else ctx.mul(x.nf, x.nf)
+            r = FV(nf, 'u64')
+            if len(args) == 2:
+                I.store_cell(args[0], r, 8)
+                return None
+            return r
+        return f
+
+    def pred(kind):
+        def f(I, args, ins):
+            x = to_fv(I.load_cell(args[0], 8))
+            if kind == 'equal':
+                y = to_fv(I.load_cell(args[1], 8))
+                return I.icmp('eq', cval(I, FV((x.nf - y.nf).modp(), 'u64')), 0, ('i', 64))
+            c = {'isZero': 0, 'isOne': 1, 'isNegone': P - 1}[kind]
+            return I.icmp('eq', cval(I, FV((x.nf - c).modp(), 'u64')), 0, ('i', 64))
+        return f
+    out = [('Goldilocks::neg(%s const&)' % E, unary('neg')), ('Goldilocks::neg(%s&, %s const&)' % (E, E), unary('neg')),
+           ('Goldilocks::square(%s const&)' % E, unary('square')), ('Goldilocks::square(%s&, %s const&)' % (E, E), unary('square')),
+           ('Goldilocks::isZero(%s const&)' % E, pred('isZero')), ('Goldilocks::isOne(%s const&)' % E, pred('isOne')),
+           ('Goldilocks::isNegone(%s const&)' % E, pred('isNegone')), ('Goldilocks::equal(%s const&, %s const&)' % (E, E), pred('equal'))]
+    return out
 
 
